@@ -31,6 +31,14 @@ def C01(ctx):
                         continue
                     cases.append(op_generate_ac(key, d, p, l, gen="grid:len×pad×outlen"))
     ctx.exhaustive_dims.append("message length 0..64 × {EMV,VISA,default} × output length {default,4..8} × {distinct halves, equal halves}")
+    # the cipher input vanishes (or is all ones) at one block: the plaintext block equals the chaining value there
+    for _ in range(ctx.n(150, 1500)):
+        k = g.key()
+        if len(k) != 16:
+            continue
+        nb = R.randrange(2, 7)
+        d = gens.cbc_fixed_point_message(R, k[:8], nb, None, R.choice([bytes(8), bytes(8), b"\xff" * 8]))
+        cases.append(op_generate_ac(k, d, R.choice(["EMV", "VISA", "-"]), R.choice([None, 4, 8]), gen="cipher input vanishes at a block"))
     # generated, with argument reuse (same key/message/padding under different output lengths)
     for _ in range(ctx.n(6000, 60000)):
         k = g.key(); d = g.msg(120); p = R.choice(["EMV", "VISA", "-"]); l = R.choice([None, 4, 5, 6, 7, 8])
@@ -120,6 +128,27 @@ def C02(ctx):
                 q, csu, p = bytes(body[:8]), bytes(body[8:12]), bytes(body[12:])
                 cases.append(op_arpc2(g.key(), q, csu, p if plen or R.random() < .5 else None, gen="arqc||csu||pad ends in 80 00*"))
     ctx.exhaustive_dims.append("ARPC 2: proprietary data length 0..8 × trailing 80 00* of every length 1..8")
+    # the cipher input vanishes at a block boundary: CSU||PAD (as padded) equals the chaining value after the ARQC block,
+    # or the third block equals the second chaining value (a relation between key, ARQC and CSU / PAD)
+    for _ in range(ctx.n(120, 1200)):
+        k = g.key()
+        if len(k) != 16:
+            continue
+        plen = R.choice([None, 0, 1, 3, 4, 4, 5, 8])
+        n = 8 + 4 + (plen or 0)
+        nb = (n + 1 + 7) // 8                              # blocks after method-2 padding
+        at = R.randrange(1, nb)
+        val = R.choice([bytes(8), bytes(8), b"\xff" * 8])
+        m = bytearray(gens.cbc_fixed_point_message(R, k[:8], nb, at, val))
+        pad_tail = b"\x80" + bytes(nb * 8 - n - 1)
+        if bytes(m[n:]) != pad_tail:                        # the solved block overlaps the padding: solve the ARQC instead
+            m[n:] = pad_tail
+            if at == 1:
+                from cryptography.hazmat.primitives.ciphers import Cipher, algorithms, modes
+                want = bytes(x ^ y for x, y in zip(m[8:16], val))
+                m[0:8] = Cipher(algorithms.TripleDES(k[:8]), modes.ECB()).decryptor().update(want)
+        q, csu, p = bytes(m[:8]), bytes(m[8:12]), bytes(m[12:n])
+        cases.append(op_arpc2(k, q, csu, None if plen is None else p, gen="cipher input vanishes at a block boundary"))
     for _ in range(ctx.n(4000, 40000)):
         k = g.key(); q = R.choice([R.randbytes(8), bytes(8), b"\xff" * 8])
         rc = R.choice([R.randbytes(2), b"\x00\x10", b"\x30\x30", b"\x01\x02", b"\xff\x00"])
@@ -178,8 +207,8 @@ def C03(ctx):
     # single- and triple-length issuer keys (accepted by the cipher; K3 takes part)
     for _ in range(ctx.n(300, 3000)):
         k = R.randbytes(R.choice([8, 24, 24]))
-        if len(k) == 24 and R.random() < .3:
-            k = k[:16] + k[:8]
+        if len(k) == 24 and R.random() < .5:
+            k = g.key24()
         cases.append(op_mk(R.choice("ab"), k, g.form(g.digits(R.choice([12, 16, 17, 19]))), g.form(R.choice([None, g.digits(2)])),
                            gen="8- and 24-byte issuer keys"))
     # PAN / PSN text as it is displayed or stored: grouped, tab-separated, trailing newline
@@ -377,6 +406,12 @@ def C06(ctx):
         n = 8 * R.randrange(1, 8); z = R.randrange(0, 8)
         c = R.randbytes(n - z - 1) + b"\x80" + bytes(z)
         cases.append(op_command_mac(g.key(), c, None, gen="ends in 80 00* at a block edge"))
+    for _ in range(ctx.n(150, 1500)):
+        k = g.key()
+        if len(k) != 16:
+            continue
+        c = gens.cbc_fixed_point_message(R, k[:8], R.randrange(2, 7), None, R.choice([bytes(8), b"\xff" * 8])) + R.randbytes(R.randrange(0, 8))
+        cases.append(op_command_mac(k, c, R.choice([None, 4, 8]), gen="cipher input vanishes at a block"))
     for n in ([65536, 70001] if not ctx.thorough else [65535, 65536, 65537, 70001, 131072]):
         cases.append(op_command_mac(g.key(), R.randbytes(n), None, gen="command beyond 64 KiB"))
     # the output length as other integer objects (IntEnum member, __index__-only object)
